@@ -186,14 +186,18 @@ def stale_generated(ctx, fails, theorems, source_translators=("t_lexer", "t_prep
     """A translator that refuses the source leaves its previous output in coq/gen: the theorems that speak about that
     output are NOT established for the current tree, whatever coqc says about the stale file.  The `*_source` theorems
     depend on t_lexer / t_prep / t_parser; every theorem about grammar_prog depends on t_grammar / t_grammarcert /
-    t_tokens / t_lextables / t_unicode."""
+    t_tokens / t_lextables / t_unicode; the `*lib_parse*` / `*_parse_is_source` theorems also on t_libglue."""
     tr_failed = {f["translator"] for f in fails if f.get("kind") == "translator"}
     if not tr_failed:
         return
-    if tr_failed - set(source_translators):
+    if tr_failed - set(source_translators) - {"t_libglue"}:
         stale = set(theorems)
     else:
-        stale = {t for t in theorems if "source" in t}
+        stale = set()
+        if tr_failed & set(source_translators):
+            stale |= {t for t in theorems if "source" in t or "lib_parse" in t}
+        if "t_libglue" in tr_failed:       # lib.rs glue: only the theorems about the rendered `parse`
+            stale |= {t for t in theorems if "lib_parse" in t or "parse_is_source" in t}
     ctx.cov["stale_generated_input"] = {"translators_failed": sorted(tr_failed), "theorems_not_established": sorted(stale)}
     ok = ctx.cov.get("axioms_per_theorem", {})
     ctx.cov["discharged"] = max(0, ctx.cov.get("discharged", 0) - len([t for t in stale if ok.get(t) == []]))
